@@ -6,6 +6,8 @@ For every state transformer `f` of the model: `f (s.stripBy P) = (f s).stripBy P
 state (replies, flags, fresh ids, errors) is the same.  For every read `g`: `g (s.stripBy P) = g s`.
 -/
 
+set_option linter.unusedSectionVars false
+
 variable {τ σ : Type} [Num τ]
 variable (P : EvId → Bool)
 
